@@ -5,6 +5,7 @@ import ast
 
 from ..core import AnalysisError, Project, dotted, is_const, kwarg, norm, param_names, walk_no_nested
 from ..util import canon, returns_of
+from .. import sym
 
 EXPLANATION = (
     "Static rules: (R1) SimpleFormula.differentiate builds its result by a one-to-one comprehension over the private term list "
@@ -17,29 +18,48 @@ EXPLANATION = (
 ASSUMPTIONS = []
 
 
+LIT0 = ["Term({Factor('0', eval_method='literal')})", "Term([Factor('0', eval_method='literal')])", "Term({Factor('0', 'literal')})",
+        "Term({Factor('0', eval_method=Factor.EvalMethod.LITERAL)})"]
+LIT1 = [x.replace("'0'", "'1'") for x in LIT0]
+
+
+def _single_return(f):
+    """The returned expression of a function with exactly one way to return (locals substituted); None otherwise."""
+    try:
+        outs = [o for o in sym.outcomes(f.node) if o.kind == "return"]
+    except sym.Unmodelled:
+        return None
+    return outs[0].value if len(outs) == 1 else None
+
+
 def r1(ctx):
     P = ctx.project
     f = P.method("formulaic.formula.SimpleFormula", "differentiate", inherited=False)
-    r = returns_of(f.node)
     ctx.look(4)
-    c = r[0].value if r else None
-    ok = isinstance(c, ast.Call) and dotted(c.func) == "SimpleFormula" and c.args and isinstance(c.args[0], ast.ListComp)
-    if ok:
-        lc = c.args[0]
-        ok = len(lc.generators) == 1 and not lc.generators[0].ifs and norm(lc.generators[0].iter) == "self.__terms" \
-            and norm(lc.elt) == f"differentiate_term({norm(lc.generators[0].target)}, wrt, use_sympy=use_sympy)"
-    ctx.check(ok, "C20.R1", "one derivative term per term, in the formula's order", f.where, ctx.construct(f, text="one-to-one"),
-              f"differentiate returns `{norm(c)[:150] if c is not None else None}`")
-    o = kwarg(c, "_ordering") if isinstance(c, ast.Call) else None
-    ctx.check(o is not None and norm(o) == "OrderingMethod.NONE", "C20.R1", "the derivative keeps the term order (no re-sorting by degree)", f.where,
-              ctx.construct(f, text="ordering NONE"), f"_ordering is `{norm(o) if o is not None else 'default (DEGREE)'}`: differentiation changes degrees, so terms would be reshuffled")
-    g = P.method("formulaic.formula.StructuredFormula", "differentiate", inherited=False)
-    t = norm(g.node)
-    ok = "self._map(" in t and ".differentiate(*wrt, use_sympy=use_sympy)" in t
-    ctx.check(ok, "C20.R1", "structured formulas differentiate leaf-wise", g.where, ctx.construct(g, text="leaf-wise"), "StructuredFormula.differentiate must map differentiate over the leaves")
+    c = _single_return(f)
+    params = param_names(f.node)
+    # SimpleFormula([differentiate_term(t, wrt, use_sympy=use_sympy) for t in self.__terms], _ordering=…)
+    b = sym.pm_any(["SimpleFormula([differentiate_term(VAR_t, wrt, use_sympy=use_sympy) for VAR_t in self.__terms], _ordering=ANY_o)",
+                    "SimpleFormula([differentiate_term(VAR_t, wrt=wrt, use_sympy=use_sympy) for VAR_t in self.__terms], _ordering=ANY_o)",
+                    "SimpleFormula([differentiate_term(VAR_t, wrt, use_sympy) for VAR_t in self.__terms], _ordering=ANY_o)",
+                    "SimpleFormula([differentiate_term(VAR_t, wrt, use_sympy=use_sympy) for VAR_t in self.__terms])",
+                    "SimpleFormula([differentiate_term(VAR_t, wrt=wrt, use_sympy=use_sympy) for VAR_t in self.__terms])"], c)
+    ctx.check(b is not None, "C20.R1", "one derivative term per term, in the formula's order", f.where, ctx.construct(f, text="one-to-one"),
+              f"differentiate returns `{norm(c)[:150] if c is not None else None}`; expected one differentiate_term(term, wrt, use_sympy) per element of self.__terms, unfiltered, in order")
+    o = (b or {}).get("ANY_o")
+    ctx.check(o == "OrderingMethod.NONE", "C20.R1", "the derivative keeps the term order (no re-sorting by degree)", f.where,
+              ctx.construct(f, text="ordering NONE"), f"_ordering is `{o if o is not None else 'default (DEGREE)'}`: differentiation changes degrees, so terms would be reshuffled")
+    for cls, what, key in (("formulaic.formula.StructuredFormula", "structured formulas differentiate leaf-wise", "leaf-wise"),
+                           ("formulaic.model_spec.ModelSpecs", "model specs differentiate leaf-wise", "specs")):
+        g = P.method(cls, "differentiate", inherited=False)
+        c = _single_return(g)
+        ok = c is not None and any(
+            sym.pm(pat, x) is not None for x in ast.walk(c)
+            for pat in ("self._map(lambda VAR_x: VAR_x.differentiate(*wrt, use_sympy=use_sympy))",
+                        "self._map(lambda VAR_x: VAR_x.differentiate(*wrt, use_sympy=use_sympy), as_type=ANY_t)"))
+        ctx.check(ok, "C20.R1", what, g.where, ctx.construct(g, text=key), f"{cls.split('.')[-1]}.differentiate must map differentiate(*wrt, use_sympy=use_sympy) over the leaves; returns `{norm(c)[:120] if c is not None else None}`")
     h = P.method("formulaic.model_spec.ModelSpec", "differentiate", inherited=False)
-    r = returns_of(h.node)
-    c = r[0].value if r else None
+    c = _single_return(h)
     ok = isinstance(c, ast.Call) and norm(c.func) == "self.update" and kwarg(c, "formula") is not None \
         and norm(kwarg(c, "formula")) == "self.formula.differentiate(*wrt, use_sympy=use_sympy)"
     ctx.check(ok, "C20.R1", "a model spec differentiates its own formula with the same variables", h.where, ctx.construct(h, text="spec"), f"returns `{norm(c) if c is not None else None}`")
@@ -48,10 +68,6 @@ def r1(ctx):
               ctx.construct(h, text="spec structure"),
               "ModelSpec.differentiate must reset `structure` (it lists the original formula's terms and columns): a materialised spec's derivative otherwise "
               "fails (KeyError) or replays the original columns when materialised")
-    k = P.method("formulaic.model_spec.ModelSpecs", "differentiate", inherited=False)
-    t = norm(k.node)
-    ok = "self._map(" in t and ".differentiate(*wrt, use_sympy=use_sympy)" in t
-    ctx.check(ok, "C20.R1", "model specs differentiate leaf-wise", k.where, ctx.construct(k, text="specs"), "ModelSpecs.differentiate must map over the leaves")
 
 
 def r2(ctx):
@@ -59,49 +75,93 @@ def r2(ctx):
     f = P.func("formulaic.utils.calculus.differentiate_term")
     ctx.look(5)
     fn = f.node
-    lp = [n for n in walk_no_nested(fn) if isinstance(n, ast.For)]
-    if len(lp) != 1:
+    params = param_names(fn)
+    try:
+        outs = sym.outcomes(fn)
+    except sym.Unmodelled as e:
+        raise AnalysisError(f"C20.R2: differentiate_term cannot be summarised: {e}")
+    loops = {id(l._sym_orig): l for o in outs for l in o.loops}
+    if len(loops) != 1:
         raise AnalysisError("C20.R2: variable loop of differentiate_term not found")
-    lp = lp[0]
-    ctx.check(norm(lp.iter) == "wrt", "C20.R2", "variables are applied successively in the order given", f.module.line(lp), ctx.construct(f, text="loop"),
-              f"loop iterates `{norm(lp.iter)}`")
-    t = norm(lp)
-    ok = "affected_factors = set((factor for factor in factors if var in _factor_symbols(factor, use_sympy=use_sympy)))" in t
-    ctx.check(ok, "C20.R2", "a factor is affected iff the variable is among its symbols", f.module.line(lp), ctx.construct(f, text="affected"),
-              "affected_factors must be {factor for factor in factors if var in _factor_symbols(factor)}")
-    z = [n for n in lp.body if isinstance(n, ast.If) and norm(n.test) == "not affected_factors"]
-    ok = len(z) == 1 and isinstance(z[0].body[0], ast.Return) and norm(z[0].body[0].value) == "Term({Factor('0', eval_method='literal')})"
-    ctx.check(ok, "C20.R2", "a term not containing the variable differentiates to the literal 0 term", f.module.line(lp), ctx.construct(f, text="zero"),
-              "expected `if not affected_factors: return Term({Factor('0', eval_method='literal')})`")
-    ok = "factors = cast(OrderedSet, factors - affected_factors | _differentiate_factors(affected_factors, var, use_sympy=use_sympy))" in t
-    ctx.check(ok, "C20.R2", "affected factors are removed and replaced by their derivative, the rest keep their order", f.module.line(lp), ctx.construct(f, text="replace"),
-              "expected factors = factors - affected_factors | _differentiate_factors(affected_factors, var)")
-    r = [x for x in returns_of(fn) if x not in [s for s in ast.walk(lp) if isinstance(s, ast.Return)]]
-    ok = bool(r) and norm(r[-1].value) == "Term(factors or {Factor('1', eval_method='literal')})"
-    ctx.check(ok, "C20.R2", "an empty product becomes the literal 1 term", f.where, ctx.construct(f, text="one"), f"final return `{norm(r[-1].value) if r else None}`")
-    # nothing else happens per variable: the loop body is exactly (affected set, zero short-circuit, replacement)
-    kinds = [type(x).__name__ for x in lp.body]
-    ctx.check(kinds == ["Assign", "If", "Assign"] and not lp.orelse and not any(isinstance(x, (ast.Break, ast.Continue)) for x in ast.walk(lp)), "C20.R2",
-              "each variable is processed by exactly: affected set, zero short-circuit, replacement (no early exit)", f.module.line(lp), ctx.construct(f, text="loop shape"),
-              f"loop body statements are {kinds}{' with break/continue' if any(isinstance(x, (ast.Break, ast.Continue)) for x in ast.walk(lp)) else ''}: an early exit skips the "
+    lp = next(iter(loops.values()))
+    line = f.module.line(lp._sym_orig)
+    ctx.check(isinstance(lp._sym_orig, ast.For) and norm(lp._sym_head) == params[1], "C20.R2", "variables are applied successively in the order given", line,
+              ctx.construct(f, text="loop"), f"loop iterates `{norm(lp._sym_head)}`")
+    var = norm(lp._sym_orig.target) if isinstance(lp._sym_orig, ast.For) else "?"
+    inloop = [o for o in outs if o.loops]
+    after = [o for o in outs if not o.loops]
+    falls = [o for o in inloop if o.kind in ("fall", "continue")]
+    zero = [o for o in inloop if o.kind == "return"]
+    other = [o for o in inloop if o.kind not in ("fall", "continue", "return")]
+    # the running factor set: the one loop-carried variable that is also read after the loop
+    carried = sorted({k for o in falls for k in o.env if k not in lp._sym_env or norm(o.env[k]) != norm(lp._sym_env.get(k))} & {
+        n.id for o in after if o.value is not None for n in ast.walk(o.value) if isinstance(n, ast.Name)})
+    F = carried[0] if len(carried) == 1 else None
+    AFF = "{VAR_f for VAR_f in %s if %s in _factor_symbols(VAR_f, use_sympy=use_sympy)}" % (F, var)
+    AFF2 = "{VAR_f for VAR_f in %s if %s in _factor_symbols(VAR_f, use_sympy)}" % (F, var)
+    # (a) zero rule
+    okz = False
+    aff_text = None
+    if len(zero) == 1 and len(zero[0].conds) == 1 and zero[0].conds[0][1] is False:
+        b = sym.pm_any([AFF, AFF2], zero[0].conds[0][0])
+        if b is not None:
+            aff_text = norm(zero[0].conds[0][0])
+            okz = sym.pm_any(LIT0, zero[0].value) is not None
+    ctx.check(aff_text is not None, "C20.R2", "a factor is affected iff the variable is among its symbols", line, ctx.construct(f, text="affected"),
+              f"the affected set must be {{factor for factor in {F} if {var} in _factor_symbols(factor, use_sympy=use_sympy)}}, recomputed per variable; "
+              f"in-loop returns: {[repr(o)[:160] for o in zero]}")
+    ctx.check(okz, "C20.R2", "a term not containing the variable differentiates to the literal 0 term", line, ctx.construct(f, text="zero"),
+              "expected: if no factor is affected, return Term({Factor('0', eval_method='literal')}) immediately")
+    # (b) replacement
+    okr = False
+    if len(falls) == 1 and F and aff_text and F in falls[0].env:
+        okr = any(sym.pm(pat, falls[0].env[F], {"ANY_a": aff_text}) is not None for pat in (
+            f"{F} - ANY_a | _differentiate_factors(ANY_a, {var}, use_sympy=use_sympy)",
+            f"({F} - ANY_a) | _differentiate_factors(ANY_a, {var}, use_sympy)",
+            f"({F} - ANY_a).union(_differentiate_factors(ANY_a, {var}, use_sympy=use_sympy))"))
+    ctx.check(okr, "C20.R2", "affected factors are removed and replaced by their derivative, the rest keep their order", line, ctx.construct(f, text="replace"),
+              f"expected {F} = ({F} - affected) | _differentiate_factors(affected, {var}, use_sympy=use_sympy); found "
+              f"`{norm(falls[0].env[F])[:200] if len(falls) == 1 and F and F in falls[0].env else [repr(o)[:100] for o in falls]}`")
+    ctx.check(not other and len(falls) == 1 and len(zero) <= 1 and not any(o.kind == "break" for o in inloop), "C20.R2",
+              "each variable is processed by exactly: affected set, zero short-circuit, replacement (no early exit)", line, ctx.construct(f, text="loop shape"),
+              f"other ways of leaving an iteration: {[repr(o)[:120] for o in other + falls[1:]]}: an early exit skips the "
               f"zero rule for the remaining variables (d/db of the constant left by d/da must be 0, not 1)")
-    syms = [c for c in ast.walk(lp) if isinstance(c, ast.Call) and dotted(c.func) == "_factor_symbols"]
-    ctx.check(len(syms) == 1 and norm(syms[0].args[0]) == "factor" and any(isinstance(g, ast.GeneratorExp) and norm(g.generators[0].iter) == "factors" for g in ast.walk(lp)), "C20.R2",
-              "symbols are taken from the CURRENT factor set on every pass", f.module.line(lp), ctx.construct(f, text="current factors"),
-              "affected factors must be recomputed from the running `factors` for each variable (a precomputed map misses factors produced by earlier passes)")
-    init = [n for n in fn.body if isinstance(n, ast.Assign) and norm(n.targets[0]) == "factors"]
-    ctx.check(bool(init) and norm(init[0].value) == "OrderedSet(term.factors)", "C20.R2", "the term's factors are kept in order", f.where, ctx.construct(f, text="init"),
-              "factors must start as OrderedSet(term.factors)")
+    ctx.check(aff_text is not None and F is not None and f" in {F} if " in aff_text, "C20.R2", "symbols are taken from the CURRENT factor set on every pass", line,
+              ctx.construct(f, text="current factors"),
+              "affected factors must be recomputed from the running factor set for each variable (a precomputed map misses factors produced by earlier passes)")
+    init = lp._sym_env.get(F) if F else None
+    ctx.check(init is not None and sym.pm_any([f"OrderedSet({params[0]}.factors)"], init) is not None, "C20.R2", "the term's factors are kept in order", f.where,
+              ctx.construct(f, text="init"), f"the running factor set must start as OrderedSet({params[0]}.factors); it starts as `{norm(init) if init is not None else None}`")
+    # (c) after the loop: empty product -> literal 1, else the term over the remaining factors
+    rets = [o for o in after if o.kind == "return"]
+    ok1 = ok2 = False
+    if F:
+        e = sym.select(rets, {F: False})
+        n = sym.select(rets, {F: True})
+        ok1 = len(e) == 1 and sym.pm_any(LIT1, sym.simplify(e[0].value, {F: False})) is not None
+        ok2 = len(n) == 1 and sym.pm(f"Term({F})", sym.simplify(n[0].value, {F: True})) is not None
+    ctx.check(ok1, "C20.R2", "an empty product becomes the literal 1 term", f.where, ctx.construct(f, text="one"), f"final returns {[repr(o)[:140] for o in rets]}")
+    ctx.check(ok2, "C20.R2", "otherwise the result is the term over the remaining factors", f.where, ctx.construct(f, text="rest"), f"final returns {[repr(o)[:140] for o in rets]}")
     s = P.func("formulaic.utils.calculus._factor_symbols")
-    rs = returns_of(s.node)
-    ok = bool(rs) and norm(rs[-1].value) == "{factor.expr}"
-    ctx.check(ok, "C20.R2", "without sympy a factor's only symbol is its own expression", s.where, ctx.construct(s, text="symbols"), f"returns `{norm(rs[-1].value) if rs else None}`")
+    sp = param_names(s.node)
+    try:
+        souts = [o for o in sym.outcomes(s.node) if o.kind == "return"]
+    except sym.Unmodelled:
+        souts = []
+    plain = sym.select(souts, {sp[1]: False})
+    ok = len(plain) == 1 and sym.pm("{%s.expr}" % sp[0], plain[0].value) is not None
+    ctx.check(ok, "C20.R2", "without sympy a factor's only symbol is its own expression", s.where, ctx.construct(s, text="symbols"), f"returns {[repr(o)[:120] for o in plain]}")
     d = P.func("formulaic.utils.calculus._differentiate_factors")
-    t = norm(d.node)
-    ok = "if len(factors) != 1:" in t and "expr = 1" in t and "if expr == 1:" in t and "return set()" in t
+    dp = param_names(d.node)
+    try:
+        douts = sym.select(sym.outcomes(d.node), {dp[2]: False})
+    except sym.Unmodelled:
+        douts = []
+    one = sym.select(douts, {f"len({dp[0]}) != 1": False})
+    many = sym.select(douts, {f"len({dp[0]}) != 1": True})
+    ok = len(one) == 1 and one[0].kind == "return" and norm(one[0].value) == "set()" and bool(many) and all(o.kind == "raise" for o in many)
     ctx.check(ok, "C20.R2", "without sympy the derivative of a single factor w.r.t. itself is 1 (no factor remains)", d.where, ctx.construct(d, text="derivative one"),
-              "_differentiate_factors (no sympy): exactly one factor, derivative 1 → empty set")
-
+              f"_differentiate_factors (no sympy): exactly one factor, derivative 1 → empty set; more than one → error; found {[repr(o)[:110] for o in douts]}")
 
 
 def f1(ctx):
